@@ -147,7 +147,7 @@ def enforce_no_pitch_overlap(asc, rng):
 def generate(seed, tier, cfg):
     st = R.Streams(seed)
     k = st.knobs
-    asc = gen.gen_score(st.workload, profile="midi")
+    asc = gen.gen_score(st.workload, profile="midi", size=gen.pick_size(tier, st.knobs))
     enforce_no_pitch_overlap(asc, st.workload)
     o = st.ops
     mode = k.randrange(0, 6)
